@@ -2,6 +2,7 @@
 # all_seeds.sh [tier] [seed names...] -- for every saved seeded change: apply it to $VERIF_REPO (default /repo; use a scratch copy for
 # background runs), run the check of its property, restore, and print one line: <seed> caught|MISSED <clauses seen>.
 tier=${1:-quick}; shift
+export VERIF_EVIDENCE_DIR=$(mktemp -d /var/tmp/seed_evidence.XXXXXX)   # never overwrite the committed evidence with a run on modified code
 here="$(cd "$(dirname "${BASH_SOURCE[0]}")/.." && pwd)"
 repo=${VERIF_REPO:-/repo}
 cd "$here"
@@ -26,4 +27,4 @@ P
   nf=$(grep -c "no-failing-input-found" /tmp/all_seeds_$$.log)
   if [ $rc -eq 1 ]; then echo "$n caught clauses=$cl no-failing-input-lines=$nf"; else echo "$n MISSED rc=$rc"; fi
 done
-rm -f /tmp/all_seeds_$$.log
+rm -f /tmp/all_seeds_$$.log; rm -rf "$VERIF_EVIDENCE_DIR"
